@@ -78,6 +78,18 @@ def shape_problems(res, mode, grouped, strict_pk=True, normalized=False):
                     out.append((f"{i}.columns.{j}.{k}", "not a boolean"))
         al = e.get("alter") if isinstance(e.get("alter"), dict) else {}
         moved = any(k in al for k in ("dropped_columns", "renamed_columns", "modified_columns"))
+        if strict_pk and isinstance(e.get("primary_key"), list) and moved and not any(k in al for k in ("dropped_columns", "modified_columns")):
+            # only RENAME COLUMN happened: a key name is a current column name or the name a column had BEFORE it was renamed (the pinned tree
+            # leaves the old name in primary_key) - never a name no column ever had
+            try:
+                olds = {_plain(r_["from"]) for r_ in al.get("renamed_columns", []) if isinstance(r_, dict)}
+            except Exception:  # noqa
+                olds = None
+            if olds is not None:
+                ever = {_plain(x) for x in names} | olds
+                for n in e["primary_key"]:
+                    if isinstance(n, str) and _plain(n) not in ever:
+                        out.append((f"{i}.primary_key", f"{n!r} was never the name of a column of the table"))
         if strict_pk and isinstance(e.get("primary_key"), list) and not moved:
             # with normalize_names=True every name is reported without delimiters, so a key name must be a column name as it stands
             plain = set(names) if normalized else {_plain(x) for x in names}
@@ -152,6 +164,18 @@ def run(tier, seed):
     sel = sel if thorough else rnd.sample(sel, min(len(sel), 200))
     for b in sel:
         inputs.append(("clauses", K.render(b) + "\n", {}, []))
+    # every clause of the catalogue ONCE, in every mode and flag configuration (a dialect class that re-shapes the table for one clause only)
+    singles = {}
+    for b in g.beh:
+        if len(b["clauses"]) == 1:
+            singles.setdefault(b["clauses"][0], b)
+    for cid_, b in sorted(singles.items()):
+        inputs.append((f"special:clause:{cid_}", K.render(b) + "\n", {}, []))
+    # RENAME COLUMN next to a key: names that contain one another (id / order_id), every key declaration style
+    for i, kd in enumerate(["PRIMARY KEY (order_id)", "CONSTRAINT pk1 PRIMARY KEY (order_id, id)", "PRIMARY KEY (id, order_id)"]):
+        inputs.append((f"special:rename{i}", f"CREATE TABLE tr{i} (id int NOT NULL, order_id int NOT NULL, code varchar(5), {kd});\nALTER TABLE tr{i} RENAME COLUMN code TO item_code;\n"
+                       + (f"ALTER TABLE tr{i} RENAME COLUMN id TO uid;\n" if i != 1 else ""), {}, []))
+    inputs.append(("special:rename-inline", "CREATE TABLE tr9 (id int, order_id int PRIMARY KEY, r int);\nALTER TABLE tr9 RENAME COLUMN id TO uid;\nALTER TABLE tr9 RENAME COLUMN r TO order;\n", {}, []))
     print(f"  t={time.time()-t0:.0f}s generators done", flush=True)
     # scripts that yield no entity at all, or only non-table entities: the shape rules (list / bucket dict / JSON string) still apply
     for i, t in enumerate(["", "\n", "GO\n", "USE db1;\nGRANT ALL ON x TO y;\n", "-- only a comment\n", "INSERT INTO t VALUES (1);\n",
